@@ -59,6 +59,31 @@ where
         return Err("from_be/le_bytes does not invert to_be/le_bytes".into());
     }
     n += 1;
+    // keys at the arithmetic edges of the byte codecs: a single 0x80 byte at every position (the byte-OR of the
+    // encoding is 0x80), 0x7f / 0xff patterns, one, r - 1
+    {
+        use blsful::inner_types::{Field, PrimeField};
+        type S<C> = <<C as Pairing>::PublicKey as blsful::inner_types::Group>::Scalar;
+        let mut edges: Vec<S<C>> = vec![S::<C>::ONE, -S::<C>::ONE, S::<C>::from(0x7fu64), S::<C>::from(0xffu64), S::<C>::from(0x8080u64), S::<C>::from(0x80_0000_0080u64)];
+        let mut p = S::<C>::from(0x80u64);
+        let b256 = S::<C>::from(256u64);
+        for _ in 0..31 {
+            edges.push(p);
+            p *= b256;
+        }
+        let _ = S::<C>::NUM_BITS;
+        for e in edges {
+            let k = SecretKey::<C>(e);
+            let (be, le) = (k.to_be_bytes(), k.to_le_bytes());
+            let a: Option<SecretKey<C>> = SecretKey::<C>::from_be_bytes(&be).into();
+            let b: Option<SecretKey<C>> = SecretKey::<C>::from_le_bytes(&le).into();
+            let c = SecretKey::<C>::try_from(&be[..]).ok();
+            if a.as_ref() != Some(&k) || b.as_ref() != Some(&k) || c.as_ref() != Some(&k) {
+                return Err(format!("edge key {} does not survive its byte form", hex::encode(be)));
+            }
+        }
+        n += 1;
+    }
     // fixed-size array conversions, by reference and by value: the big-endian form, and what the decoders read
     let by_ref = <[u8; 32]>::from(sk);
     let owned: SecretKey<C> = SecretKey(sk.0); // an owned copy (derive(Clone) would need C: Clone and fall back to cloning the reference)
